@@ -1072,7 +1072,8 @@ void reb_calculate_acceleration_var(struct reb_simulation* r){
                             particles_var1[j].az -= Gmi * daz - dGmi*r3inv*dz; 
                         }
                         }
-                        for (int i=_N_active; i<_N_real; i++){
+                        const int startitestp = MAX(_N_active, starti); // same start index as in the force calculation
+                        for (int i=startitestp; i<_N_real; i++){
                         for (int j=startj; j<_N_active; j++){
                             const double dx = particles[i].x - particles[j].x;
                             const double dy = particles[i].y - particles[j].y;
